@@ -7,8 +7,8 @@ B58Alphabet == <<49,50,51,52,53,54,55,56,57,
                  65,66,67,68,69,70,71,72,74,75,76,77,78,80,81,82,83,84,85,86,87,88,89,90,
                  97,98,99,100,101,102,103,104,105,106,107,109,110,111,112,113,114,115,116,
                  117,118,119,120,121,122>>
-B58ValT == [c \in 0..255 |-> IndexOf(B58Alphabet, c) - 1]
-B58Val(c) == IF c \in 0..255 THEN B58ValT[c] ELSE -1
+B58ValT == MkSeq(256, LAMBDA c : IndexOf(B58Alphabet, c - 1) - 1)
+B58Val(c) == IF c \in 0..255 THEN B58ValT[c + 1] ELSE -1
 
 \* digits (most significant first) of limb number n in base 58
 B58Digits(n) ==
